@@ -63,6 +63,7 @@ func runC13(c *Ctx) {
 	c.readsAllRule("encode-exhaustive", "sbom.(*NodeList).Equal", "NodeList", true)
 	c.floor("encode-exhaustive", 43, "26+3+6+5+3 schema fields")
 	encodingHistoryFree(c, "encoding-history-free", "sbom.(*Node).flatString", "sbom.(*Edge).flatString", "sbom.(*Person).flatString", "sbom.(*ExternalReference).flatString")
+	encodingValuesVerbatim(c, "encoding-values-verbatim", "sbom.(*Node).flatString", "sbom.(*Edge).flatString", "sbom.(*Person).flatString", "sbom.(*ExternalReference).flatString")
 	distinctFieldTags(c, "distinct-field-tags", "sbom.(*Person).flatString", "sbom.(*ExternalReference).flatString")
 	for _, f := range []string{"sbom.(*Node).flatString", "sbom.(*Edge).flatString", "sbom.(*Person).flatString",
 		"sbom.(*ExternalReference).flatString", "sbom.(*NodeList).Equal", "sbom.flatStringStrSlice", "sbom.flatStringMap"} {
@@ -87,6 +88,9 @@ func runC14(c *Ctx) {
 	c.diffRule("sbom.(*Node).Diff")
 	c.floor("diff-stanza", 26, "26 Node fields")
 	diffHelpers(c)
+	// completeness against Equal: a date at the epoch is a date for the equality encoding, so it is
+	// one for the diff
+	timestampPresenceRule(c, "timestamp-presence-by-nil", pkgFilter(c.reachDecls("timestamp-presence-by-nil", "sbom.(*Node).Diff"), "sbom.diff", "sbom.(*Node).Diff"))
 	// the list helper compares nested messages through their equality encoding: a field the
 	// encoding reads under the wrong key is a difference Diff cannot see
 	schemaMapKeyRule(c, c.reachDecls("schema-map-key", "sbom.(*Node).Diff", "sbom.(*Person).flatString", "sbom.(*ExternalReference).flatString"))
